@@ -60,7 +60,7 @@ def productive_and_reachable(g):
     return seen == set(rules)
 
 
-def enumerated(kmax, with_parts_upto=4):
+def enumerated(kmax, with_parts_upto=5):
     out = []
     for nr in (1, 2):
         for tot in range(1, kmax + 1):
@@ -113,6 +113,8 @@ PRATT_POOL = {
     "midopt": ("cat", [("tok", "L"), ("ref", "e"), ("opt", ("tok", "M"))]),
     "multi": ("cat", [("ref", "e"), ("paren", ("alt", [("tok", "P"), ("tok", "M")])), ("ref", "e")]),
     "call": ("cat", [("ref", "e"), ("ref", "args")]),
+    "nullop": ("cat", [("ref", "e"), ("opt", ("tok", "V")), ("tok", "Z")]),
+    "starop": ("cat", [("ref", "e"), ("star", ("tok", "V")), ("tok", "Z")]),
 }
 ARGS_RULE = ("args", ("cat", [("tok", "L"), ("opt", ("cat", [("ref", "e"), ("star", ("cat", [("tok", "K"), ("ref", "e")]))])), ("tok", "R")]))
 PRATT_STARTS = {
@@ -120,6 +122,7 @@ PRATT_STARTS = {
     "opafter": ("cat", [("ref", "e"), ("tok", "P")]),
     "wrapped": ("cat", [("tok", "L"), ("ref", "e"), ("tok", "R")]),
     "list": ("star", ("cat", [("ref", "e"), ("tok", "X")])),
+    "zafter": ("cat", [("ref", "e"), ("tok", "Z")]),
 }
 
 
@@ -130,6 +133,8 @@ def pratt_family(rng, cap):
     for r in (1, 2, 3):
         combos += list(itertools.combinations(names, r))
     rng.shuffle(combos)
+    special = [("nullop",), ("starop",), ("nullop", "add"), ("midop", "add"), ("tern", "post"), ("neg", "post"), ("index", "mul")]
+    combos = special + [c for c in combos if c not in special]
     for combo in combos:
         if not any(PRATT_POOL[c][1][0] == ("ref", "e") or (PRATT_POOL[c][1][0][0] == "pred") for c in combo):
             continue
@@ -189,6 +194,35 @@ def pred_family():
             if l[0] == "tok" and l[1] not in toks:
                 toks.append(l[1])
         out.append(G.mk("pred_" + n, toks, [("s", b)]))
+    return out
+
+
+def parts_family():
+    """Parts that are also used from the start rule, rules shared between the start rule and a part,
+    loops on both sides (recovery sets through dominators, end markers)."""
+    T = lambda x: ("tok", x)
+    R = lambda x: ("ref", x)
+    cat = lambda *xs: ("cat", list(xs))
+    star = lambda x: ("star", x)
+    par = lambda x: ("paren", x)
+    opt = lambda x: ("opt", x)
+    out = []
+    specs = [
+        ("used_part_loop", ["stmt"], [("file", star(par(cat(R("stmt"), T("S"))))), ("stmt", cat(T("L"), T("I"), star(par(cat(T("K"), T("I"))))))]),
+        ("shared_rule", ["stmt"], [("file", star(R("item"))), ("stmt", cat(T("X"), R("item"), T("Y"))), ("item", cat(T("A"), opt(T("B")), T("C")))]),
+        ("shared_rule_end", ["stmt"], [("file", star(R("item"))), ("stmt", cat(T("X"), R("item"))), ("item", cat(T("A"), opt(T("B")), T("C")))]),
+        ("two_parts", ["p", "q"], [("s", star(R("p"))), ("p", cat(T("A"), R("q"), T("D"))), ("q", ("alt", [("plus", T("B")), T("C")]))]),
+        ("unused_part_shared", ["p"], [("s", cat(R("a"), T("D"))), ("a", cat(T("A"), star(T("B")))), ("p", cat(T("X"), R("a"), T("Y")))]),
+        ("part_in_opt", ["p"], [("s", cat(T("A"), opt(R("p")), T("D"))), ("p", cat(T("B"), star(T("C"))))]),
+        ("nested_parts", ["p", "q"], [("s", cat(R("p"), T("D"))), ("p", cat(T("A"), star(R("q")))), ("q", cat(T("B"), opt(T("C"))))]),
+    ]
+    for nm, parts, rules in specs:
+        toks = []
+        for _, b in rules:
+            for l in G.leaves_of(b):
+                if l[0] == "tok" and l[1] not in toks:
+                    toks.append(l[1])
+        out.append(G.mk("parts_" + nm, toks, rules, start=rules[0][0], parts=parts))
     return out
 
 
@@ -258,12 +292,14 @@ def collect(tier, need_recovery=False, big_files=True, max_nodes=None):
         gens += eps_family(4)
         gens += pratt_family(rng, 250)
         gens += pred_family()
+        gens += parts_family()
         gens += randoms(rng, 300)
     else:
         gens += enumerated(6)
         gens += eps_family(5)
         gens += pratt_family(rng, 2500)
         gens += pred_family()
+        gens += parts_family()
         gens += randoms(rng, 5000)
     texts = [{"name": g["name"], "text": G.render(g), "origin": "generated"} for g in gens]
     for f in file_sources():
